@@ -178,8 +178,8 @@ def r1_dirty_tracking(ctx):
                            'is lost at the next sync' % bad))
     ctx.count('clean_payload_bindings', n_bind)
     ctx.count('mutation_sites_on_clean_payload', n_mut)
-    ctx.floor('C11.R1', 'mutating call sites on the clean server payload', by_enum[M + 'ServerState'], 2)
-    ctx.floor('C11.R1', 'mutating call sites on the clean client payload', by_enum[M + 'ClientState'], 3)
+    ctx.floor('C11.R1', 'mutating call sites on the clean server payload', by_enum[M + 'ServerState'], 1)
+    ctx.floor('C11.R1', 'mutating call sites on the clean client payload', by_enum[M + 'ClientState'], 1)
 
 
 STORE = 'pavex_session::store_::SessionStore::'
@@ -203,108 +203,105 @@ SYNC_TABLE = {
 TOLERATED_ERR_VARIANTS = {'UnknownId', 'UnknownIdError'}   # the "no such record" variant of ChangeIdError/DeleteError and of UpdateError
 
 
+def family(ctx, root):
+    """`root` plus the crate's functions whose every caller inside the crate is already in the family: private helpers that a function
+    was split into. Returned as {normalised item id: [bodies]}."""
+    callers, items = {}, {}
+    for b in ctx.fb.bodies(CR):
+        if b.is_promoted:
+            continue
+        items.setdefault(b.nroot, []).append(b)
+        for bb, t in b.calls():
+            c = strip_generics(callee(t) or '')
+            if c.startswith('pavex_session::') and c != b.nroot:
+                callers.setdefault(c, set()).add(b.nroot)
+    fam = {root}
+    changed = True
+    while changed:
+        changed = False
+        for it, cs in callers.items():
+            if it not in fam and it in items and cs and cs <= fam:
+                fam.add(it)
+                changed = True
+    return {it: items.get(it, []) for it in fam}
+
+
 def _sync_body(ctx):
     bs = [b for b in ctx.fb.bodies_of_item(CR, M + 'Session::sync') if b.is_coroutine]
     return bs[0] if len(bs) == 1 else None
 
 
+def _documented_cells():
+    out = set()
+    for meth, st, idc in SYNC_TABLE:
+        for k in (['Existing', 'ToBeRenamed', 'NewlyGenerated'] if idc == '*' else idc.split('|')):
+            out.add((meth, st, k))
+    return out
+
+
 def r2_sync_table(ctx):
-    from ..tables import guard_context
-    ctx.rule('C11.R2', 'P5+P1: in Session::sync, the set of (store method, server-state variant, id variant) cells in which '
-             'a SessionStore method is called equals the documented table; in Changed x ToBeRenamed delete(old) dominates '
-             'create(new); the result of every store call reaches `?` or an explicit match on Result whose only tolerated '
-             'error variant is UnknownId.')
-    body = ctx.need('C11.R2', 'coroutine body of Session::sync', _sync_body(ctx))
-    if body is None:
+    ctx.rule('C11.R2', 'P5+P1: every (store method, server-state variant, id variant) cell in which the typestate exploration of C11.R5 saw '
+             'Session::sync (or a private helper of it) call the store is in the documented table; in sync and its helpers the result of '
+             'every store call reaches `?` or an explicit match on Result whose only tolerated error variant is the unknown-id one; '
+             'every record written is the empty record or the `state` payload of the current server state; where both sit in one body, '
+             'delete(old) precedes create(new).')
+    res = getattr(ctx, 'c11_model', None)
+    if ctx.need('C11.R2', 'result of the typestate exploration (C11.R5)', res) is None:
         return
-    cells = {}
+    documented = _documented_cells()
+    observed = sorted(res['observed_cells'])
+    for cell in observed:
+        ok = cell in documented
+        ctx.ob('C11.R2', 'cell|%s|%s|%s' % cell, ok, '', 'store.%s in cell (state=%s, id=%s): %s' % (
+            cell[0], cell[1], cell[2], 'as documented' if ok else 'NOT in the documented sync table'))
+    ctx.floor('C11.R2', 'distinct (method, state, id) cells observed', len(observed), 10)
+    fam = family(ctx, M + 'Session::sync')
     sites = []
-    for bb, t in body.calls():
-        c = callee(t)
-        if not c or not c.startswith(STORE):
-            continue
-        meth = c[len(STORE):]
-        g = guard_context(body, bb)
-        st = g.get(SS)
-        if st is None:
-            o = g.get(OPT, set())
-            st = {'NotLoaded'} if o == {'None'} else {'?'}
-        idv = g.get(CID)
-        idc = '|'.join(sorted(idv)) if idv else '*'
-        cell = (meth, '|'.join(sorted(st)), idc)
-        cells.setdefault(cell, []).append(bb)
-        sites.append((bb, t, cell))
+    for it in sorted(fam):
+        for b in fam[it]:
+            k = 0
+            for bb, t in b.calls():
+                c = callee(t)
+                if c and c.startswith(STORE):
+                    k += 1
+                    sites.append((b, bb, t, c[len(STORE):], '%s#%d' % (it.replace(M, ''), k)))
     ctx.count('store_call_sites_in_sync', len(sites))
-    ctx.floor('C11.R2', 'SessionStore call sites in Session::sync', len(sites), 11)
-    for cell in sorted(set(cells) | SYNC_TABLE):
-        ok = cell in cells and cell in SYNC_TABLE
-        loc = body.loc(cells[cell][0]) if cell in cells else body.loc()
-        verdict = 'as documented' if ok else ('NOT in the documented sync table' if cell in cells else
-                                              'documented but no such call on any path of sync')
-        ctx.ob('C11.R2', 'cell|%s|%s|%s' % cell, ok, loc,
-               'store.%s in cell (state=%s, id=%s): %s' % (cell[0], cell[1], cell[2], verdict))
-    # ordering inside Changed x ToBeRenamed
-    d = cells.get(('delete', 'Changed', 'ToBeRenamed'))
-    c = cells.get(('create', 'Changed', 'ToBeRenamed'))
-    if d and c:
-        ctx.ob('C11.R2', 'order|Changed|ToBeRenamed|delete<create', body.dominates(d[0], c[0]), body.loc(c[0]),
-               'delete(old) dominates create(new) when a changed state moves to a new id')
-    # record / id provenance per cell
-    RECORD = {('create', 'DoesNotExist', 'Existing|NewlyGenerated'): 'empty', ('create', 'Unchanged', 'NewlyGenerated'): 'empty',
-              ('create', 'Unchanged', 'ToBeRenamed'): 'Unchanged.state', ('create', 'Changed', 'ToBeRenamed'): 'Changed.state',
-              ('create', 'Changed', 'NewlyGenerated'): 'Changed.state', ('update', 'Changed', 'Existing'): 'Changed.state',
-              ('create', 'Changed', 'Existing'): 'Changed.state', ('create', 'DoesNotExist', 'ToBeRenamed'): 'empty'}
-    IDS = {('change_id', 'NotLoaded', 'ToBeRenamed'): ['old', 'new'], ('change_id', 'Unchanged', 'ToBeRenamed'): ['old', 'new'],
-           ('create', 'Unchanged', 'ToBeRenamed'): ['new'], ('delete', 'Changed', 'ToBeRenamed'): ['old'],
-           ('create', 'Changed', 'ToBeRenamed'): ['new'], ('create', 'DoesNotExist', 'ToBeRenamed'): ['new']}
-    defs = Defs(body)
-
-    def reads_of(op):
-        pl = op_place(op)
-        if pl is None:
-            return set(), set()
-        sl, _ = backward_slice(body, pl['l'], defs)
-        rd = set()
-        for _, _, node in sl:
-            from ..flow import rv_operands
-            places = []
-            if 'rv' in node:
-                ops, pls = rv_operands(node['rv'])
-                places = pls + [op_place(o) for o in ops if op_place(o) is not None]
-            for q in places:
-                pp = q.get('p', [])
-                for i, el in enumerate(pp):
-                    if el.startswith('d:') and i + 1 < len(pp) and pp[i + 1].startswith('f:'):
-                        rd.add(el[2:] + '.' + pp[i + 1][2:])
-        return rd, {c for c, _, _ in slice_calls(sl)}
-
-    for bb, t, cell in sites:
-        if cell in RECORD and len(t['args']) >= 3:
-            rd, calls = reads_of(t['args'][2])
+    ctx.floor('C11.R2', 'SessionStore call sites in Session::sync and its helpers', len(sites), 8)
+    from ..flow import rv_operands
+    for b, bb, t, meth, where in sites:
+        defs = Defs(b)
+        # record provenance
+        if meth in ('create', 'update') and len(t['args']) >= 3:
+            pl = op_place(t['args'][2])
+            rd, calls = set(), set()
+            if pl is not None:
+                sl, _ = backward_slice(b, pl['l'], defs)
+                calls = {c for c, _, _ in slice_calls(sl)}
+                for _, _, node in sl:
+                    if 'rv' not in node:
+                        continue
+                    ops, pls = rv_operands(node['rv'])
+                    for q in pls + [op_place(o) for o in ops if op_place(o) is not None]:
+                        pp = q.get('p', [])
+                        for i, el in enumerate(pp):
+                            if el.startswith('d:') and i + 1 < len(pp) and pp[i + 1] == 'f:state':
+                                rd.add(el[2:] + '.state')
             empty = 'pavex_session::store_::SessionRecordRef::empty' in calls
-            got = 'empty' if empty else ('|'.join(sorted(r for r in rd if r.endswith('.state'))) or '?')
-            ctx.ob('C11.R2', 'record|%s|%s|%s' % cell, got == RECORD[cell], body.loc(bb, t),
-                   'record written by store.%s in (state=%s,id=%s) is built from: %s (documented: %s)' % (cell + (got, RECORD[cell])))
-        if cell in IDS:
-            got = []
-            for a in t['args'][1:1 + len(IDS[cell])]:
-                rd, _ = reads_of(a)
-                got.append('|'.join(sorted(r.split('.')[1] for r in rd if r.startswith('ToBeRenamed.'))) or '?')
-            ctx.ob('C11.R2', 'ids|%s|%s|%s' % cell, got == IDS[cell], body.loc(bb, t),
-                   'id argument(s) of store.%s in (state=%s,id=%s) come from ToBeRenamed field(s) %s (documented: %s)' % (cell + (got, IDS[cell])))
-    # error discipline
-    for bb, t, cell in sites:
+            got = 'empty' if empty else ('|'.join(sorted(rd)) or '?')
+            ctx.ob('C11.R2', 'record|%s|%s' % (meth, where), got in ('empty', 'Changed.state', 'Unchanged.state'), b.loc(bb, t),
+                   'record written by store.%s at %s is built from: %s (must be the empty record or the state payload of one variant)' % (meth, where, got))
+        # error discipline
         dest = t['dest']
-        derived = forward_derived(body, {dest['l']}, through_calls=True)
+        derived = forward_derived(b, {dest['l']}, through_calls=True)
         handled = None
         tolerated = set()
-        for b2, t2 in body.calls():
+        for b2, t2 in b.calls():
             if callee(t2) == 'core::ops::try_trait::Try::branch':
                 pl = op_place(t2['args'][0])
                 if pl is not None and pl['l'] in derived:
                     handled = 'propagated with `?`'
-        for b2 in body.live_blocks():
-            t2 = body.term(b2)
+        for b2 in b.live_blocks():
+            t2 = b.term(b2)
             if t2 and t2['k'] == 'switch' and 'enum' in t2 and t2['src']['l'] in derived:
                 e = strip_generics(t2['enum'])
                 if e == 'core::result::Result' and handled is None:
@@ -312,9 +309,21 @@ def r2_sync_table(ctx):
                 elif e.startswith('pavex_session::store_::errors::'):
                     tolerated |= {n for n, _ in t2['ts']}
         ok = handled is not None and tolerated <= TOLERATED_ERR_VARIANTS
-        ctx.ob('C11.R2', 'errors|%s|%s|%s' % cell, ok, body.loc(bb, t),
+        ctx.ob('C11.R2', 'errors|%s|%s' % (meth, where), ok, b.loc(bb, t),
                'result of store.%s: %s; explicitly distinguished error variants: %s' % (
-                   cell[0], handled or 'DROPPED (neither `?` nor a match on the Result)', sorted(tolerated) or 'none'))
+                   meth, handled or 'DROPPED (neither `?` nor a match on the Result)', sorted(tolerated) or 'none'))
+    # ordering, where decidable in one body
+    for it in fam:
+        for b in fam[it]:
+            dels = [bb for bb, t in b.calls() if callee(t) == STORE + 'delete']
+            crs = [bb for bb, t in b.calls() if callee(t) == STORE + 'create']
+            for c in crs:
+                for d in dels:
+                    if c in b.reachable([d]) or d in b.reachable([c]):
+                        if c in b.reachable(b.succ(d)) and d not in b.reachable(b.succ(c)):
+                            ctx.ob('C11.R2', 'order|delete<create|%s' % it.replace(M, ''), True, b.loc(c), 'delete(old) precedes create(new) on the path they share')
+                        elif d in b.reachable(b.succ(c)) and c not in b.reachable(b.succ(d)):
+                            ctx.ob('C11.R2', 'order|delete<create|%s' % it.replace(M, ''), False, b.loc(c), 'create(new) is issued BEFORE delete(old) on the path they share')
 
 
 def r3_id_plumbing(ctx):
@@ -344,35 +353,43 @@ def r3_id_plumbing(ctx):
                     got = None if any(v == 'None' for a, v, _, _ in f['aggs']) and not rd else (got or 'Some(?)')
             ctx.ob('C11.R3', 'table|%s|%s' % (fn, var), got == field, b.loc(),
                    '%s(%s) reads %s (documented: %s)' % (fn, var, got, field))
-    # (b) cookie id
+    # (b) cookie id: finalize and the private helpers it was split into
     fin = [b for b in ctx.fb.bodies_of_item(CR, M + 'Session::finalize') if b.is_coroutine]
     fin = ctx.need('C11.R3', 'coroutine body of Session::finalize', fin[0] if len(fin) == 1 else None)
     if fin is not None:
-        defs = Defs(fin)
+        fam = family(ctx, M + 'Session::finalize')
+        fam.pop(M + 'Session::sync', None)
+        for it in list(fam):
+            if it in family(ctx, M + 'Session::sync') and it != M + 'Session::finalize':
+                fam.pop(it, None)
         found = 0
-        for bb, j, st in fin.all_assigns():
-            rv = st['rv']
-            if rv['k'] == 'agg' and rv.get('ak') == 'adt' and strip_generics(rv['adt']) == 'pavex_session::wire::WireClientState':
-                found += 1
-                i = rv['fields'].index('session_id')
-                pl = op_place(rv['ops'][i])
-                calls = set()
-                if pl is not None:
-                    sl, _ = backward_slice(fin, pl['l'], defs)
-                    calls = {c for c, _, _ in slice_calls(sl)}
-                ok = (M + 'CurrentSessionId::new_id') in calls and (M + 'CurrentSessionId::old_id') not in calls
-                ctx.ob('C11.R3', 'cookie-id|finalize', ok, fin.loc(bb, st),
-                       'WireClientState.session_id derives from %s' % sorted(c for c in calls if 'SessionId' in c))
-        ctx.floor('C11.R3', 'WireClientState constructions in finalize', found, 1)
-        # sync precedes cookie creation
+        builders = set()      # family members that construct a cookie
+        COOKIE_NEW = lambda c: (c or '').endswith('ResponseCookie::new') or (c or '').endswith('RemovalCookie::new')
+        for it, bodies in fam.items():
+            for b in bodies:
+                defs = Defs(b)
+                if any(COOKIE_NEW(callee(t)) for _, t in b.calls()):
+                    builders.add(it)
+                for bb, j_, st in b.all_assigns():
+                    rv = st['rv']
+                    if rv['k'] == 'agg' and rv.get('ak') == 'adt' and strip_generics(rv['adt']) == 'pavex_session::wire::WireClientState':
+                        found += 1
+                        i_ = rv['fields'].index('session_id')
+                        pl = op_place(rv['ops'][i_])
+                        calls = set()
+                        if pl is not None:
+                            sl, _ = backward_slice(b, pl['l'], defs)
+                            calls = {c for c, _, _ in slice_calls(sl)}
+                        ok = (M + 'CurrentSessionId::new_id') in calls and (M + 'CurrentSessionId::old_id') not in calls
+                        ctx.ob('C11.R3', 'cookie-id|finalize', ok, b.loc(bb, st),
+                               'WireClientState.session_id derives from %s' % sorted(c for c in calls if 'SessionId' in c))
+        ctx.floor('C11.R3', 'WireClientState constructions in finalize (and its helpers)', found, 1)
+        # sync precedes cookie creation: in finalize itself, sync dominates every cookie constructor and every call of a helper that builds one
         syncs = [bb for bb, t in fin.calls() if callee(t) == M + 'Session::sync']
-        news = [bb for bb, t in fin.calls() if callee(t) in ('pavex::cookie::ResponseCookie::new', 'biscotti::response::ResponseCookie::new',
-                                                              'biscotti::response::cookie::ResponseCookie::new',
-                                                              'biscotti::RemovalCookie::new', 'biscotti::response::removal::RemovalCookie::new')
-                or (callee(t) or '').endswith('ResponseCookie::new') or (callee(t) or '').endswith('RemovalCookie::new')]
-        if ctx.need('C11.R3', 'call to Session::sync in finalize', syncs) and ctx.need('C11.R3', 'cookie constructors in finalize', news):
-            for nb in news:
-                ctx.ob('C11.R3', 'sync-before-cookie|%s' % callee(fin.term(nb)).split('::')[-2], fin.dominates(syncs[0], nb),
+        news = [(bb, callee(t)) for bb, t in fin.calls() if COOKIE_NEW(callee(t)) or strip_generics(callee(t) or '') in builders - {M + 'Session::finalize'}]
+        if ctx.need('C11.R3', 'call to Session::sync in finalize', syncs) and ctx.need('C11.R3', 'cookie constructors (or helpers that build cookies) in finalize', news):
+            for nb, c in news:
+                ctx.ob('C11.R3', 'sync-before-cookie|%s' % c.split('::')[-2], fin.dominates(syncs[0], nb),
                        fin.loc(nb), 'sync() (with `?`) dominates the construction of the cookie')
     # (c) invalidate
     inv = ctx.need('C11.R3', 'Session::invalidate', ctx.fb.body(CR, M + 'Session::invalidate'))
@@ -429,10 +446,12 @@ def r3b_removal_cookie(ctx):
 
 def r4_only_sync_talks_to_store(ctx):
     ctx.rule('C11.R4', 'P3 who-may-call: inside pavex_session, SessionStore::{create,update,update_ttl,delete,change_id} are '
-             'called only from Session::sync and SessionStore::load only from force_load; positive control: the query '
+             'called only from Session::sync (and private helpers whose only callers are sync or such helpers) and SessionStore::load only from '
+             'force_load (same closure); positive control: the query '
              'matches the known sites.')
-    allowed = {'create': {M + 'Session::sync'}, 'update': {M + 'Session::sync'}, 'update_ttl': {M + 'Session::sync'},
-               'delete': {M + 'Session::sync'}, 'change_id': {M + 'Session::sync'}, 'load': {M + 'force_load'}}
+    fam_sync = set(family(ctx, M + 'Session::sync'))
+    fam_load = set(family(ctx, M + 'force_load'))
+    allowed = {'create': fam_sync, 'update': fam_sync, 'update_ttl': fam_sync, 'delete': fam_sync, 'change_id': fam_sync, 'load': fam_load}
     n = 0
     seen = set()
     for b in ctx.fb.bodies(CR):
@@ -454,10 +473,10 @@ def r4_only_sync_talks_to_store(ctx):
 
 
 def check(ctx):
+    from .c11_model import r5_typestate
+    r5_typestate(ctx)
     r1_dirty_tracking(ctx)
     r2_sync_table(ctx)
     r3_id_plumbing(ctx)
     r3b_removal_cookie(ctx)
     r4_only_sync_talks_to_store(ctx)
-    from .c11_model import r5_typestate
-    r5_typestate(ctx)
